@@ -64,6 +64,7 @@ class Ctx:
         self.clock = None        # harness-settable tag recorded with every decision (C04)
         self.decision_log = []   # (depth, clock, atom ids of condition) for non-trivial decisions
         self.log_decisions = False
+        self.clock_fn = None
         self.assumptions = []
         self.deg_limit = 3
         self.decided = {}
@@ -146,7 +147,7 @@ class Ctx:
         if i > self.maxdepth:
             raise BoundExceeded('decision depth bound %d' % self.maxdepth)
         if self.log_decisions:
-            self.decision_log.append((i, self.clock, cond))
+            self.decision_log.append((i, self.clock_fn() if self.clock_fn is not None else self.clock, cond))
         if i < len(self.prefix):
             d = bool(self.prefix[i])
             self.model = None
